@@ -102,22 +102,10 @@ def definitions(rho, H, d, n, one_idx):
 
 
 def moment_signatures(rho, H, mixed, m2, var):
-    """signatures for a wrong second moment / variance.  On density matrices the
-    tree computes sqrt(Tr[(H rho H^dag)^2]) and subtracts Tr[rho H rho H^dag]
-    (correct only for pure states): a value that IS that formula gets the narrow
-    signature of the known finding, anything else a generic one."""
+    """signatures for a wrong second moment / variance (the mixed-state defect of
+    the original tree was repaired by 2eafc757; nothing is classified as known)"""
     tag = "mixed-state" if mixed else "pure-state"
-    sig_m2 = "second-moment:wrong-value:" + tag
-    sig_var = "variance:wrong-value:" + tag
-    if mixed:
-        hs = H @ rho @ H.conj().T
-        wrong_m2 = math.sqrt(max(np.trace(hs.conj().T @ hs).real, 0.0))
-        wrong_var = wrong_m2 - np.trace(rho.conj().T @ hs).real
-        if m2 is not None and close(m2, wrong_m2, 1e-8):
-            sig_m2 = "second-moment:mixed-state:sqrt-of-Tr[(H.rho.H)^2]-instead-of-Tr[rho.H^2]"
-        if var is not None and abs(var - wrong_var) <= 1e-7 * (1 + abs(wrong_m2)):
-            sig_var = "variance:mixed-state:sqrt-of-Tr[(H.rho.H)^2]-minus-Tr[rho.H.rho.H]"
-    return sig_m2, sig_var
+    return "second-moment:wrong-value:" + tag, "variance:wrong-value:" + tag
 
 
 def bit_distribution(rho, d, n, one_idx, pfp, pfn):
@@ -265,7 +253,7 @@ def run_obs(case):
     if not same or sr is qs:
         bad("state:not-a-copy", "StateResult.apply did not return an equal copy of the state")
     # measurement probabilities and sampled bitstrings
-    clash = ":eigenstate-named-1-is-not-the-one-state" if ("1" in basis and one != "1") else ""
+    clash = ""  # the relabelling defect (eigenstate named "1" that is not the one-state) was repaired by ecb1d50e
     dist0 = bit_distribution(rho, d, n, one_idx, 0.0, 0.0)
     got = {format(k, "0%db" % n): v for k, v in run["probs"]}
     if set(got) != set(dist0) or any(not close(got[b], dist0[b]) for b in got):
